@@ -93,34 +93,43 @@ type c11InvCase struct {
 }
 
 var semanticViolations = map[string]string{
-	"unknown-type":           "\nstruct ZzBad { 1: NoSuchType f }\n",
-	"unknown-include-type":   "\nstruct ZzBad { 1: nosuchinclude.Thing f }\n",
-	"duplicate-field-id":     "\nstruct ZzBad { 1: i32 a, 1: i32 b }\n",
-	"duplicate-arg-id":       "\nservice ZzSvc { void f(1: i32 a, 1: i32 b) }\n",
-	"cyclic-typedef":         "\ntypedef ZzA ZzB\ntypedef ZzB ZzA\n",
-	"self-typedef":           "\ntypedef ZzSelf ZzSelf\n",
-	"cyclic-typedef-3":       "\ntypedef ZzC ZzA\ntypedef ZzA ZzB\ntypedef ZzB ZzC\nstruct ZzUse { 1: ZzA f }\n",
-	"oneway-returns":         "\nservice ZzSvc { oneway i32 f() }\n",
-	"oneway-throws":          "\nexception ZzE {}\nservice ZzSvc { oneway void f() throws (1: ZzE e) }\n",
-	"duplicate-service":      "\nservice ZzSvc {}\nservice ZzSvc {}\n",
-	"conflicting-service":    "\nservice zzSvc {}\nservice ZzSvc {}\n",
-	"duplicate-method":       "\nservice ZzSvc { void f(), void f() }\n",
-	"duplicate-scope":        "\nscope ZzScope { A: i32 }\nscope ZzScope { A: i32 }\n",
-	"duplicate-operation":    "\nscope ZzScope { A: i32, a: i32 }\n",
-	"missing-include":        "\ninclude \"no_such_file.frugal\"\n",
-	"bad-include-extension":  "\ninclude \"other.txt\"\n",
-	"vendor-on-wildcard-ns":  "\nnamespace * zz.vendored (vendor=\"x\")\n",
-	"unknown-const-ref":      "\nconst i32 ZZ_BAD = NO_SUCH_CONST\n",
-	"bad-prefix-variable":    "\nscope ZzScope prefix foo.{} { A: i32 }\n",
-	"unterminated-struct":    "\nstruct ZzBad { 1: i32 a\n",
-	"unterminated-service":   "\nservice ZzSvc { void f()\n",
-	"unterminated-comment":   "\n/* never closed\nstruct ZzBad {}\n",
-	"unterminated-string":    "\nconst string ZZ = \"never closed\n",
-	"garbage-statement":      "\n<<<<<<< HEAD\n",
-	"field-without-id":       "\nstruct ZzBad { i32 a }\n",
-	"invalid-exception-type": "\nservice ZzSvc { void f() throws (1: NoSuchExc e) }\n",
-	"invalid-return-type":    "\nservice ZzSvc { NoSuch f() }\n",
-	"invalid-op-type":        "\nscope ZzScope { A: NoSuch }\n",
+	"unknown-type":                    "\nstruct ZzBad { 1: NoSuchType f }\n",
+	"unknown-include-type":            "\nstruct ZzBad { 1: nosuchinclude.Thing f }\n",
+	"duplicate-field-id":              "\nstruct ZzBad { 1: i32 a, 1: i32 b }\n",
+	"unknown-type-in-exception":       "\nexception ZzBad { 1: string why, 2: list<NoSuchType> details }\n",
+	"unknown-type-in-union":           "\nunion ZzBad { 1: string a, 2: NoSuchType b }\n",
+	"duplicate-field-id-in-exception": "\nexception ZzBad { 1: i32 a, 1: i32 b }\n",
+	"duplicate-field-id-in-union":     "\nunion ZzBad { 1: i32 a, 1: i32 b }\n",
+	"unknown-type-in-container":       "\nstruct ZzBad { 1: map<string, list<NoSuchType>> m }\n",
+	"unknown-type-in-typedef":         "\ntypedef list<NoSuchType> ZzBadList\n",
+	"unknown-const-type":              "\nconst NoSuchType ZZ_BAD = 1\n",
+	"unknown-arg-type":                "\nservice ZzSvc { void f(1: NoSuchType a) }\n",
+	"unknown-extends":                 "\nservice ZzSvc extends NoSuchService { void f() }\n",
+	"duplicate-arg-id":                "\nservice ZzSvc { void f(1: i32 a, 1: i32 b) }\n",
+	"cyclic-typedef":                  "\ntypedef ZzA ZzB\ntypedef ZzB ZzA\n",
+	"self-typedef":                    "\ntypedef ZzSelf ZzSelf\n",
+	"cyclic-typedef-3":                "\ntypedef ZzC ZzA\ntypedef ZzA ZzB\ntypedef ZzB ZzC\nstruct ZzUse { 1: ZzA f }\n",
+	"oneway-returns":                  "\nservice ZzSvc { oneway i32 f() }\n",
+	"oneway-throws":                   "\nexception ZzE {}\nservice ZzSvc { oneway void f() throws (1: ZzE e) }\n",
+	"duplicate-service":               "\nservice ZzSvc {}\nservice ZzSvc {}\n",
+	"conflicting-service":             "\nservice zzSvc {}\nservice ZzSvc {}\n",
+	"duplicate-method":                "\nservice ZzSvc { void f(), void f() }\n",
+	"duplicate-scope":                 "\nscope ZzScope { A: i32 }\nscope ZzScope { A: i32 }\n",
+	"duplicate-operation":             "\nscope ZzScope { A: i32, a: i32 }\n",
+	"missing-include":                 "\ninclude \"no_such_file.frugal\"\n",
+	"bad-include-extension":           "\ninclude \"other.txt\"\n",
+	"vendor-on-wildcard-ns":           "\nnamespace * zz.vendored (vendor=\"x\")\n",
+	"unknown-const-ref":               "\nconst i32 ZZ_BAD = NO_SUCH_CONST\n",
+	"bad-prefix-variable":             "\nscope ZzScope prefix foo.{} { A: i32 }\n",
+	"unterminated-struct":             "\nstruct ZzBad { 1: i32 a\n",
+	"unterminated-service":            "\nservice ZzSvc { void f()\n",
+	"unterminated-comment":            "\n/* never closed\nstruct ZzBad {}\n",
+	"unterminated-string":             "\nconst string ZZ = \"never closed\n",
+	"garbage-statement":               "\n<<<<<<< HEAD\n",
+	"field-without-id":                "\nstruct ZzBad { i32 a }\n",
+	"invalid-exception-type":          "\nservice ZzSvc { void f() throws (1: NoSuchExc e) }\n",
+	"invalid-return-type":             "\nservice ZzSvc { NoSuch f() }\n",
+	"invalid-op-type":                 "\nscope ZzScope { A: NoSuch }\n",
 }
 
 var cliTargets = []string{"go", "java", "dart", "py", "py:asyncio", "py:tornado", "json", "html"}
